@@ -2,6 +2,7 @@
 package scanok
 
 import (
+	"strconv"
 	"strings"
 
 	"github.com/z7zmey/php-parser/pkg/position"
@@ -191,8 +192,19 @@ func (lex *Lexer) Lex() *token.Token {
 		lex.te = (lex.p)
 		(lex.p)--
 		{
+			// ok (num-classify): an integer only if it parses as one
+			_, err := strconv.ParseInt(string(lex.data[lex.ts:lex.te]), 10, 0)
+			if err == nil {
+				lex.setTokenPosition(tkn)
+				tok = token.T_LNUMBER
+				{
+					(lex.p)++
+					lex.cs = 3
+					goto _out
+				}
+			}
 			lex.setTokenPosition(tkn)
-			tok = token.T_STRING
+			tok = token.T_DNUMBER
 			{
 				(lex.p)++
 				lex.cs = 3
